@@ -38,5 +38,33 @@ CHECKS['C11'] = dict(
           'children only through kind/None/list-ness (shapes = least fixpoint of the real actions). Known finding F19 (empty program).'),
 )
 
-NOT_APPLICABLE = {p: PENDING for p in ['C01', 'C02', 'C03', 'C04', 'C05', 'C06', 'C07', 'C08', 'C09', 'C12',
-                                        'C13', 'C14', 'C15', 'C16', 'C17', 'C18', 'C19', 'C20']}
+CHECKS['C08'] = dict(
+    engine='E2 tables + E4',
+    level='proof',
+    ref='DESIGN.md 4 (C08), 3.3',
+    technique='deductive, per grammar production x printer configuration: the node built by the real action from tagged slots is printed by the real Unparser with children replaced by contract stubs; structural induction',
+    text=('For each of the 340 productions and each of 5 printer configurations (pretty, minify, minify+drop_semi, '
+          'minify+obfuscate, indent+obfuscate) plus a source-attribution run, every positioned fragment printed for the node '
+          'must carry the position of a slot of the production holding exactly the fragment\'s text (ASI slots exempt, comma '
+          'runs on their first comma), and token fragments must name the innermost enclosing source. With C11 and induction '
+          'over the tree this covers all programs. The renamed-identifier case and whole-pipeline layouts are a bounded '
+          'stand-in and are not counted.'),
+    note=('Trusted: C11, ply tracking contract, induction hypothesis for children. Renamed identifiers (original name recorded) '
+          'only bounded. Known finding F21 (first layout token of a later file carries no source).'),
+)
+CHECKS['C16'] = dict(
+    engine='E2 tables + E4',
+    level='other',
+    ref='DESIGN.md 4 (C16), 3.3',
+    technique='deductive per production for children()/tree-ness (real actions on tagged slots); Walker.walk/filter/extract by bounded executable contract only',
+    text=('For every production, every node the real action builds returns each node-valued attribute exactly once from '
+          'children()/__iter__ and nothing else (O-children), and no child is stored twice (O-linear), so by induction the parser '
+          'builds a tree whose pre-order over children() has no duplicates and misses no stored node. The walker functions '
+          'themselves (recursive generators) are checked only by a bounded run against an independent attribute closure; hence '
+          '"other", not "proof".'),
+    note=('Trusted: induction over derivations. Not under deductive contract: Walker.walk, filter, extract, Node.__iter__ '
+          '(bounded). Known finding F17 (Comments nodes are never walked).'),
+)
+
+NOT_APPLICABLE = {p: PENDING for p in ['C01', 'C02', 'C03', 'C04', 'C05', 'C06', 'C07', 'C09', 'C12',
+                                        'C13', 'C14', 'C15', 'C17', 'C18', 'C19', 'C20']}
